@@ -118,12 +118,14 @@ struct Case {
     freq: u32,
     /// prior content of the register that holds the LDRO bit (SX127x only)
     prior: u8,
+    /// board options: bit 0 rx_boost, bit 1 tx_boost (SX127x) / DC-DC (SX126x), bit 2 TCXO
+    board: u8,
 }
 
 impl Case {
     fn json(&self) -> Value {
         json!({"kind":"ldro","impl":IMPLS[self.imp],"path":PATHS[self.path],"sf":SF_NUM[self.sf],"bw_hz":BW_ROUNDED_HZ[self.bw],
-               "cr_denom":CR_DENOM[self.cr],"freq_hz":self.freq,"prior_reg":self.prior})
+               "cr_denom":CR_DENOM[self.cr],"freq_hz":self.freq,"prior_reg":self.prior,"board_options":self.board})
     }
     fn from_json(v: &Value) -> Option<Case> {
         Some(Case {
@@ -134,6 +136,7 @@ impl Case {
             cr: CR_DENOM.iter().position(|s| Some(*s as u64) == v["cr_denom"].as_u64())?,
             freq: v["freq_hz"].as_u64()? as u32,
             prior: v["prior_reg"].as_u64().unwrap_or(0) as u8,
+            board: v["board_options"].as_u64().unwrap_or(0) as u8,
         })
     }
 }
@@ -229,10 +232,10 @@ fn observe_case(c: &Case) -> Obs {
             };
             let noprime = || {};
             match imp {
-                "sx1261" => drive(rig::sx126x(&chip, Sx1261, false).0, c, &noprime, &obs),
-                "sx1262" => drive(rig::sx126x(&chip, Sx1262, false).0, c, &noprime, &obs),
-                "stm32wl-hp" => drive(rig::sx126x(&chip, Stm32wl { use_high_power_pa: true }, false).0, c, &noprime, &obs),
-                _ => drive(rig::sx126x(&chip, Stm32wl { use_high_power_pa: false }, false).0, c, &noprime, &obs),
+                "sx1261" => drive(rig::sx126x_board(&chip, Sx1261, c.board).0, c, &noprime, &obs),
+                "sx1262" => drive(rig::sx126x_board(&chip, Sx1262, c.board).0, c, &noprime, &obs),
+                "stm32wl-hp" => drive(rig::sx126x_board(&chip, Stm32wl { use_high_power_pa: true }, c.board).0, c, &noprime, &obs),
+                _ => drive(rig::sx126x_board(&chip, Stm32wl { use_high_power_pa: false }, c.board).0, c, &noprime, &obs),
             }
         }
         "sx127x" => {
@@ -260,9 +263,9 @@ fn observe_case(c: &Case) -> Obs {
                 }
             };
             if kind == Kind::Sx1276 {
-                drive(rig::sx1276(&chip, false, false).0, c, &prime, &obs)
+                drive(rig::sx1276_board(&chip, c.board).0, c, &prime, &obs)
             } else {
-                drive(rig::sx1272(&chip, false, false).0, c, &prime, &obs)
+                drive(rig::sx1272_board(&chip, c.board).0, c, &prime, &obs)
             }
         }
         _ => {
@@ -401,7 +404,7 @@ fn self_check() -> Result<(), String> {
 pub fn run(ctx: &mut Ctx) {
     ctx.level = "exploration".into();
     ctx.exhaustive = true;
-    ctx.rule = "exhaustive: 8 SF x 10 BW x 8 implementations (BaseBandModulationParams::new; Sx126x as SX1261, SX1262, STM32WL-HP, STM32WL-LP; Sx127x as SX1276, SX1272; Lr1110) x 4 frequency classes (169, 433, 868, 915 MHz) x paths (RadioKind create+set_modulation_params with all 4 coding rates; LoRa::prepare_for_rx; LoRa::prepare_for_tx; LorawanRadio::setup_rx; LorawanRadio::tx; LR1110 and the calculator: RadioKind/new only) x prior content 0x00/0xFF of the SX127x register holding the bit. One evaluation = one (implementation, path, SF, BW, CR, frequency, prior) tuple executed against the chip model, refused pairs included. Non-trivial (distinct by construction): the pair is accepted by the implementation and its nominal symbol time is within a factor 2 of the threshold (8.19 ms < 2^SF/BW < 32.76 ms: 12 pairs)".into();
+    ctx.rule = "exhaustive: 8 SF x 10 BW x 8 implementations (BaseBandModulationParams::new; Sx126x as SX1261, SX1262, STM32WL-HP, STM32WL-LP; Sx127x as SX1276, SX1272; Lr1110) x 4 frequency classes (169, 433, 868, 915 MHz) x paths (RadioKind create+set_modulation_params with all 4 coding rates; LoRa::prepare_for_rx; LoRa::prepare_for_tx; LorawanRadio::setup_rx; LorawanRadio::tx; LR1110 and the calculator: RadioKind/new only) x prior content 0x00/0xFF of the SX127x register holding the bit x the 8 board-option combinations (rx_boost, tx_boost or DC-DC, TCXO) of the SX126x/SX127x drivers. One evaluation = one (implementation, path, SF, BW, CR, frequency, prior) tuple executed against the chip model, refused pairs included. Non-trivial (distinct by construction): the pair is accepted by the implementation and its nominal symbol time is within a factor 2 of the threshold (8.19 ms < 2^SF/BW < 32.76 ms: 12 pairs)".into();
     ctx.assumptions = vec![
         "threshold 16.38 ms evaluated exactly with the nominal LoRa bandwidths (7.8125, 10.41(6), 15.625, 20.8(3), 31.25, 41.(6), 62.5, 125, 250, 500 kHz)".into(),
         "SF8 @ 15.6 kHz (nominal 16.384 ms, crate constant 15630 Hz gives 16.378 ms) is agreement-only: every implementation must decide like the airtime calculator".into(),
@@ -436,11 +439,14 @@ pub fn run(ctx: &mut Ctx) {
                                     if fam != "sx127x" && prior != 0 {
                                         continue;
                                     }
+                                  // board options (8 combinations) on the chip families that have them; CR 4/5 only
+                                  let boards: &[u8] = if (fam == "sx127x" || fam == "sx126x") && cr == 0 { &[0, 1, 2, 3, 4, 5, 6, 7] } else { &[0] };
+                                  for &board in boards {
                                     idx += 1;
                                     if idx % n != ti {
                                         continue;
                                     }
-                                    let c = Case { imp, path, sf, bw, cr, freq, prior };
+                                    let c = Case { imp, path, sf, bw, cr, freq, prior, board };
                                     st.eval();
                                     st.class(&format!("impl:{}", IMPLS[imp]));
                                     st.class(&format!("path:{}", PATHS[path]));
@@ -475,6 +481,7 @@ pub fn run(ctx: &mut Ctx) {
                                             st.sample(j);
                                         }
                                     }
+                                  }
                                 }
                             }
                         }
